@@ -14,8 +14,7 @@ EXPLANATION = ("Differential form only. Models with symbolic mass properties, fr
                "calcSystemMomentumAboutGroundOrigin are outputs. d/dt is the exact forward-mode derivative of the output DAGs along "
                "q -> qdot_code, u -> udot_code. Proved: conservative force sets (Gravity/UniformGravity, two-point springs, mobility springs, "
                "undamped LinearBushing; no constraints): d(KE+PE)/dt = 0; free-floating models (Free base mobilizer, internal forces only): "
-               "d/dt of all six components of the system momentum about the Ground origin = 0, and d/dt(system mass centre) = linear momentum / total mass is "
-               "not assumed; with dampers: d(KE+PE)/dt = -(sum of documented dissipation terms c s^2) [equality] and each term <= 0 [inequality], "
+               "d/dt of all six components of calcSystemMomentumAboutGroundOrigin = 0 (also with internal dampers); with dampers: d(KE+PE)/dt = -(sum of documented dissipation terms c s^2) [equality] and each term <= 0 [inequality], "
                "for LinearBushing dE/dt = -getPowerDissipation = -zdot of its dissipated-energy state variable.")
 BOUNDS = ("models of spec/C11.py (1-3 bodies); u and all 'lin' force parameters free, coordinates pinned at exact base points (2 quick / 6 thorough) "
           "plus, where the encoder size limit allows, one free coordinate at a time (falls back to pinned coordinates otherwise: recorded in evidence 'extra')")
